@@ -36,6 +36,34 @@ def tcp_table(F):
         if k != 'arm':
             raise AnalysisError('tcp::repl: flag dispatch is not a pure guard region (value %#x: %s at bb%d)' % (v, k, b))
         table[v] = b
+    # the flags are consulted by the guards only: an arm that still reads them (a table lookup, a closure capturing them)
+    # continues the dispatch behind a call, which the exhaustive evaluation above cannot see - no verdict rather than a wrong one
+    fl = {t['dest']['l']}
+    changed = True
+    while changed:
+        changed = False
+        for blk in f.blocks:
+            for st in blk['stmts']:
+                rv = st['rv']
+                src = rv.get('a') if rv['k'] in ('use', 'cast') else (rv if rv['k'] == 'ref' else None)
+                pl = src.get('place') if isinstance(src, dict) else None
+                if pl and pl['l'] in fl and not st['lhs']['p'] and st['lhs']['l'] not in fl and (rv['k'] == 'ref' or src['k'] in ('copy', 'move')):
+                    if f.locals[st['lhs']['l']]['ty'] in ('u16', "&'{erased} u16"):
+                        fl.add(st['lhs']['l'])
+                        changed = True
+    for h in sorted(set(table.values())):
+        for b2 in f.reachable(h):
+            blk = f.blocks[b2]
+            if blk['cleanup']:
+                continue
+            t2 = blk['term']
+            ops = list(t2.get('args', [])) if t2['k'] == 'call' else ([t2['discr']] if t2['k'] == 'switch' else [])
+            for st in blk['stmts']:
+                rv = st['rv']
+                ops += [rv[k_] for k_ in ('a', 'b') if isinstance(rv.get(k_), dict)] + list(rv.get('ops', []))
+            if any(o.get('k') in ('copy', 'move') and o['place']['l'] in fl and f.locals[o['place']['l']]['ty'] != 'u16' for o in ops) or \
+                    any(o.get('k') in ('copy', 'move') and o['place']['l'] in fl and t2['k'] == 'call' and o in t2.get('args', []) for o in ops):
+                raise AnalysisError('tcp::repl: the flag dispatch continues inside an arm (the flags are passed to a call at %s): the decision table cannot be extracted' % f.loc(b2))
     return f, table, bi
 
 
@@ -296,6 +324,20 @@ def edge_fact(d, v, vals):
     elif isinstance(d, tuple) and d[0] == 'call' and d[1] in ('std::cmp::PartialEq::eq', 'std::cmp::PartialEq::ne') and len(d[2]) == 2:
         a, b = d[2]
         cmpop = 'Eq' if d[1].endswith('::eq') else 'Ne'
+    if cmpop is None and isinstance(d, tuple) and d[0] == 'bin' and d[1] in ('Gt', 'Lt', 'Ge', 'Le'):
+        # unsigned orderings that are (in)equalities with zero: x > 0, 0 < x, x >= 1, 1 <= x  <=>  x != 0 ; x <= 0, x < 1, 0 >= x, 1 > x  <=>  x == 0
+        a, b = d[2], d[3]
+        ca, cb = const_val(a), const_val(b)
+        op = d[1]
+        if ca is not None and cb is None:
+            a, b, ca, cb = b, a, cb, ca
+            op = {'Gt': 'Lt', 'Lt': 'Gt', 'Ge': 'Le', 'Le': 'Ge'}[op]
+        cty = b[3] if isinstance(b, tuple) and b[0] == 'const' and len(b) > 3 else ''
+        if cb is not None and ca is None and str(cty).startswith('u'):
+            if (op, cb) in (('Gt', 0), ('Ge', 1)):
+                cmpop, b = 'Ne', ('const', 0, None, cty)
+            elif (op, cb) in (('Le', 0), ('Lt', 1)):
+                cmpop, b = 'Eq', ('const', 0, None, cty)
     if cmpop:
         ca, cb = const_val(a), const_val(b)
         if cb is None and ca is not None:
@@ -366,23 +408,8 @@ def consistent(facts, new):
     return True
 
 
-def some_points(f):
-    """Blocks in which a reply is materialised: `X = Option::Some{..}` with X of the function's reply Option type."""
-    rty = f.locals[0]['ty']
-    if rty.startswith('('):
-        # tuple: first component
-        depth = 0
-        for i, ch in enumerate(rty):
-            if ch in '<([':
-                depth += 1
-            elif ch in '>)]':
-                depth -= 1
-            elif ch == ',' and depth == 1:
-                rty = rty[1:i]
-                break
-    # locals whose value is handed to the return place (directly, by whole moves, or as a component of the returned tuple):
-    # an Option of the same type that only lives inside the function (the result of an inlined helper, matched on and
-    # unpacked again) is not a reply point
+def returned_locals(f):
+    """locals whose value is handed to the return place: directly, by whole moves, or as a component of the returned tuple"""
     flows = {0}
     changed = True
     while changed:
@@ -399,6 +426,26 @@ def some_points(f):
                     if o['k'] in ('copy', 'move') and not o['place']['p'] and o['place']['l'] not in flows:
                         flows.add(o['place']['l'])
                         changed = True
+    return flows
+
+
+def some_points(f):
+    """Blocks in which a reply is materialised: `X = Option::Some{..}` with X of the function's reply Option type."""
+    rty = f.locals[0]['ty']
+    if rty.startswith('('):
+        # tuple: first component
+        depth = 0
+        for i, ch in enumerate(rty):
+            if ch in '<([':
+                depth += 1
+            elif ch in '>)]':
+                depth -= 1
+            elif ch == ',' and depth == 1:
+                rty = rty[1:i]
+                break
+    # an Option of the same type that only lives inside the function (the result of an inlined helper, matched on and
+    # unpacked again) is not a reply point
+    flows = returned_locals(f)
     out = []
     for bi, b in enumerate(f.blocks):
         if b['cleanup']:
